@@ -258,6 +258,23 @@ class Module:
             off += fs
         raise IndexError(idx)
 
+    def contains_ptr(self, ty, depth=0):
+        if depth > 8:
+            return True
+        k = ty.k
+        if k == 'ptr':
+            return True
+        if k in ('arr', 'vec'):
+            return self.contains_ptr(ty.elem, depth + 1)
+        if k == 'named':
+            if self.is_union(ty):
+                return False
+            body = self.named.get(ty.name)
+            return body is not None and self.contains_ptr(body, depth + 1)
+        if k == 'lit':
+            return any(self.contains_ptr(f, depth + 1) for f in ty.fields)
+        return False
+
     def resolve(self, ty):
         """named -> body (Ty lit) or None if opaque"""
         if ty.k == 'named':
@@ -636,6 +653,9 @@ class FuncTranslator:
         self.out = []
         self.tmpn = 0
         self.used = set()
+        self.vbase_ptrs = set()
+        self.bc_origin = {}
+        self.arg_origins = []
 
     def lname(self, raw):
         s = raw[1:]
@@ -1458,6 +1478,15 @@ class FT(FuncTranslator):
             ty, i = m.parse_type(t, i)
             a, i = self.value(ty, t, i)
             b, i = self.value(ty, t, i + 1)
+            p2i = getattr(self, 'p2i', {})
+            if op == 'sub' and ty.k == 'int' and ty.bits == 64 and a in p2i and b in p2i:
+                # (ptrtoint p) - (ptrtoint q), the libstdc++ idiom for end - begin: as a pointer difference CBMC folds
+                # it to an offset difference when both point into one object (integer addresses never fold)
+                # equal pointers (e.g. the null begin/end of an empty, memset-initialised vector) differ by 0: null - null
+                # does not fold as a pointer difference
+                self.emit('%s = ((char *)%s == (char *)%s) ? (uint64_t)0 : (__CPROVER_POINTER_OBJECT(%s) == __CPROVER_POINTER_OBJECT(%s)) ? (uint64_t)((char *)%s - (char *)%s) : %s;'
+                          % (res, p2i[a], p2i[b], p2i[a], p2i[b], p2i[a], p2i[b], m.binop_expr(op, ty, a, b)))
+                return
             self.emit('%s = %s;' % (res, m.binop_expr(op, ty, a, b)))
             return
         if op in ('fadd', 'fsub', 'fmul', 'fdiv', 'frem'):
@@ -1522,7 +1551,13 @@ class FT(FuncTranslator):
                 i += 1
             ty, i = m.parse_type(t, i)
             pty, i = m.parse_type(t, i + 1)
+            src_tok = t[i][1]
             p, i = self.value(pty, t, i)
+            if ty.k == 'int' and ty.bits == 64 and src_tok in self.vbase_ptrs:
+                # Itanium ABI "virtual base offset" load (vptr[-3]): vtables hold the offset as an integer-address
+                # pointer; read it as a pointer and take its offset so that the value constant-folds
+                self.emit('%s = (uint64_t)__CPROVER_POINTER_OFFSET(*(uint8_t **)%s);' % (res, p))
+                return
             self.emit('%s = *%s;' % (res, p))
             return
         if op == 'store':
@@ -1539,6 +1574,8 @@ class FT(FuncTranslator):
         if op == 'getelementptr':
             if t[i][1] == 'inbounds':
                 i += 1
+            if len(t) >= 4 and t[-1][1] == '-24' and t[-2][1] == 'i64' and t[i][1] == 'i8' and res is not None:
+                self.vbase_ptrs.add(t[0][1])
             sty, i = m.parse_type(t, i)
             pty, i = m.parse_type(t, i + 1)
             base, i = self.value(pty, t, i)
@@ -1557,9 +1594,18 @@ class FT(FuncTranslator):
         if op in ('bitcast', 'inttoptr', 'ptrtoint', 'trunc', 'zext', 'sext', 'fptrunc', 'fpext', 'sitofp', 'uitofp',
                   'fptosi', 'fptoui', 'addrspacecast'):
             sty, i = m.parse_type(t, i)
+            if op == 'bitcast' and t[i][1] in self.vbase_ptrs and res is not None:
+                self.vbase_ptrs.add(t[0][1])
+            src_tok_bc = t[i][1]
             sv, i = self.value(sty, t, i)
+            if op == 'bitcast' and res is not None and sty.k == 'ptr' and sty.elem.k in ('named', 'lit', 'arr', 'ptr'):
+                self.bc_origin[t[0][1]] = (sty.elem, sv)
             assert t[i][1] == 'to'
             dty, i = m.parse_type(t, i + 1)
+            if op == 'ptrtoint' and dty.k == 'int' and dty.bits == 64 and res is not None and re.match(r'^v\d+$', sv):
+                if not hasattr(self, 'p2i'):
+                    self.p2i = {}
+                self.p2i[res] = sv
             self.emit('%s = %s;' % (res, m.cast_expr(op, sty, sv, dty)))
             return
         if op == 'select':
@@ -1768,6 +1814,7 @@ class FT(FuncTranslator):
         assert t[i][1] == '(', t[i]
         i += 1
         args = []
+        self.arg_origins = []
         while t[i][1] != ')':
             aty, i = m.parse_type(t, i)
             i2 = i
@@ -1781,10 +1828,22 @@ class FT(FuncTranslator):
                 i = self.skip_value(t, i) if t[i][0] != 'meta' else i + 1
                 args.append((aty, '0'))
             else:
+                org = None
+                if t[i][0] in ('loc', 'lq') and t[i][1] in self.bc_origin:
+                    org = self.bc_origin[t[i][1]]
+                elif t[i][1] == 'bitcast' and t[i + 1][1] == '(':
+                    try:
+                        oty, j2 = m.parse_type(t, i + 2)
+                        if oty.k == 'ptr' and oty.elem.k in ('named', 'lit', 'arr', 'ptr'):
+                            ov, _ = self.value(oty, t, j2)
+                            org = (oty.elem, ov)
+                    except Exception:
+                        org = None
                 av, i = self.value(aty, t, i)
                 if av.startswith('{'):
                     av = '(%s)%s' % (ct(aty), av)
                 args.append((aty, av))
+                self.arg_origins.append(org)
             if t[i][1] == ',':
                 i += 1
         # intrinsics
@@ -1808,6 +1867,15 @@ class FT(FuncTranslator):
                 self.emit('%s = (uint8_t *)ll_new_typed(malloc(sizeof(%s)));' % (res, ct(tty)))
                 m.uses_typed_new = True
                 return
+        if callee_name in ('_Znwm', '_Znam') and res is not None and re.fullmatch(r'v\w+', args[0][1] or ''):
+            # std::vector<T> storage: operator new(count * sizeof(T)) whose result is cast to T* -> array of T
+            cnt = self.new_array_count(args[0][1])
+            if cnt is not None:
+                tty = self.new_target_type(t[0][1], cnt[1], allow_ptr=True)
+                if tty is not None:
+                    self.emit('%s = (uint8_t *)ll_new_typed(malloc(sizeof(%s) * (uint64_t)(%s)));' % (res, ct(tty), cnt[0]))
+                    m.uses_typed_new = True
+                    return
         if callee_name is not None:
             if callee_name in m.aliases:
                 aty, toks = m.aliases[callee_name]
@@ -1854,14 +1922,37 @@ class FT(FuncTranslator):
         else:
             self.emit('%s;' % call)
 
-    def new_target_type(self, resname, n):
+    def new_array_count(self, cname):
+        """cname = C name of a local defined by `mul i64 %count, <const>`: returns (C expr of count, const)"""
+        raw = None
+        for r, (c, ty) in self.locals.items():
+            if c == cname:
+                raw = r
+                break
+        if raw is None:
+            return None
+        for t in self.all_toks:
+            if len(t) > 6 and t[0][1] == raw and t[1][1] == '=' and t[2][1] in ('mul', 'shl'):
+                shl = t[2][1] == 'shl'
+                i = 3
+                while t[i][1] in ('nuw', 'nsw'):
+                    i += 1
+                if t[i][1] != 'i64' or i + 3 >= len(t) or t[i + 2][1] != ',':
+                    return None
+                a, b = t[i + 1], t[i + 3]
+                if a[0] in ('loc', 'lq') and a[1] in self.locals and re.fullmatch(r'\d+', b[1]):
+                    return self.locals[a[1]][0], ((1 << int(b[1])) if shl else int(b[1]))
+                return None
+        return None
+
+    def new_target_type(self, resname, n, allow_ptr=False):
         m = self.m
         for t in self.all_toks:
             if len(t) > 5 and t[1][1] == '=' and t[2][1] == 'bitcast' and t[3][1] == 'i8' and t[4][1] == '*' and t[5][1] == resname:
                 for q in range(len(t) - 1, 5, -1):
                     if t[q][1] == 'to':
                         ty, _ = m.parse_type(t, q + 1)
-                        if ty.k == 'ptr' and ty.elem.k in ('named', 'lit', 'arr'):
+                        if ty.k == 'ptr' and (ty.elem.k in ('named', 'lit', 'arr') or (allow_ptr and ty.elem.k == 'ptr')):
                             sz, _ = m.size_align(ty.elem)
                             if sz == n:
                                 return ty.elem
@@ -1884,6 +1975,15 @@ class FT(FuncTranslator):
         a = [x[1] for x in args]
         if name.startswith('llvm.memcpy.') or name.startswith('llvm.memmove.'):
             fn = 'll_memcpy' if 'memcpy' in name else 'll_memmove'
+            orgs = [o for o in self.arg_origins[:2] if o is not None and m.contains_ptr(o[0])]
+            if orgs:
+                oty = orgs[0][0]
+                mm = re.fullmatch(r'\(\(uint64_t\)(\d+)ULL\)', a[2])
+                if mm and int(mm.group(1)) == m.size_align(oty)[0] and oty.k in ('named', 'lit', 'arr'):
+                    # whole-object copy of a pointer-carrying type: typed assignment keeps pointer provenance
+                    self.emit('*(%s *)%s = *(%s *)%s;' % (ct(oty), a[0], ct(oty), a[1]))
+                    return
+                fn += '_ptr'
             self.emit('%s((void *)%s, (void *)%s, (uint64_t)%s);' % (fn, a[0], a[1], a[2]))
             return
         if name.startswith('llvm.memset.'):
@@ -1979,6 +2079,8 @@ void *malloc(size_t);
 static inline void *ll_new_typed(void *p) { __CPROVER_assume(p != 0); return p; }
 void ll_memcpy(void *, void *, uint64_t);
 void ll_memmove(void *, void *, uint64_t);
+void ll_memcpy_ptr(void *, void *, uint64_t);
+void ll_memmove_ptr(void *, void *, uint64_t);
 void ll_memset(void *, uint8_t, uint64_t);
 void ll_trap(void);
 double ll_pow(double, double);
@@ -2129,7 +2231,19 @@ def translate(text, model_globals=(), skip_ctors=()):
     std_streams = [n for n in m.global_order if n in ('_ZSt4cerr', '_ZSt4cout', '_ZSt4clog') and m.globals[n]['external']]
     if std_streams:
         parts.append('void vs_init_std_stream(void *);')
-    parts.append('void __ll2c_global_ctors(void)\n{\n' + '\n'.join('  vs_init_std_stream((void *)&%s);' % m.cname(c, 'g') for c in std_streams)
+    VBASE = {'_ZTVSt14basic_ofstreamIcSt11char_traitsIcEE': 248, '_ZTVSt14basic_ifstreamIcSt11char_traitsIcEE': 256,
+             '_ZTVNSt7__cxx1119basic_ostringstreamIcSt11char_traitsIcESaIcEEE': 112,
+             '_ZTVNSt7__cxx1119basic_istringstreamIcSt11char_traitsIcESaIcEEE': 120}
+    # stored as an integer-address pointer so that the header-inlined "load i64 vptr[-3]" folds to the constant
+    vbase_init = ['  *(uint8_t **)&%s = (uint8_t *)%d;' % (m.cname(n, 'g'), VBASE[n]) for n in m.global_order
+                  if n in VBASE and m.globals[n]['external']]
+    for n in m.global_order:
+        # VTT of a stream class: every entry points at the primary vtable (slot 3), whose slot -3 is the vbase offset
+        if n.startswith('_ZTT') and m.globals[n]['external'] and ('_ZTV' + n[4:]) in m.globals and ('_ZTV' + n[4:]) in VBASE:
+            cnt = m.globals[n]['ty'].n if m.globals[n]['ty'].k == 'arr' else 0
+            for q in range(cnt):
+                vbase_init.append('  %s.a[%d] = (uint8_t *)&%s + 24;' % (m.cname(n, 'g'), q, m.cname('_ZTV' + n[4:], 'g')))
+    parts.append('void __ll2c_global_ctors(void)\n{\n' + '\n'.join(vbase_init) + '\n' + '\n'.join('  vs_init_std_stream((void *)&%s);' % m.cname(c, 'g') for c in std_streams)
                  + '\n' + '\n'.join('  %s();' % m.cname(c, 'g') for c in ctors) + '\n}\n')
     parts.append('\n'.join(inline_stubs))
     parts.append('\n'.join(func_text))
